@@ -8,7 +8,7 @@ From Coq Require Import List NArith ZArith Bool Lia.
 Import ListNotations.
 From Base Require Import PyStr.
 From Model Require Import Wrap.
-From Proofs Require Import PyStrFacts WrapProofs.
+From Proofs Require Import PyStrFacts WrapProofs NormProofs.
 Local Open Scope Z_scope.
 
 Lemma split_ws_aux_app_space a c b : is_space c = true -> forall cur,
@@ -41,15 +41,16 @@ Theorem wrap_canonical_collapse esc splitter t1 t2 width c0 c1 dw md :
   wrap_paragraph_lines esc splitter t2 width c0 c1 true dw md.
 Proof. intros H. unfold wrap_paragraph_lines, maybe. now rewrite H. Qed.
 
-(* ... and, with the whitespace splitter and a positive width, only through its words *)
-Theorem wrap_canonical_words esc t1 t2 width c0 c1 md : 0 < width ->
+(* ... and, with the whitespace splitter, only through its words - for every width, wrapping or not *)
+Theorem wrap_canonical_words esc t1 t2 width c0 c1 md :
   split_ws t1 = split_ws t2 ->
   wrap_paragraph_lines esc split_ws t1 width c0 c1 true true md =
   wrap_paragraph_lines esc split_ws t2 width c0 c1 true true md.
 Proof.
-  intros Hw H. unfold wrap_paragraph_lines, maybe.
-  destruct (width <=? 0) eqn:E; [apply Z.leb_le in E; lia|].
-  now rewrite !split_ws_collapse, H.
+  intros H. unfold wrap_paragraph_lines, maybe.
+  destruct (width <=? 0) eqn:E.
+  - now rewrite !strip_collapse_is_join, H.
+  - now rewrite !split_ws_collapse, H.
 Qed.
 
 (* the words of a wrapped paragraph (any width, plain mode) are the words of the source *)
@@ -63,15 +64,15 @@ Qed.
 
 (* C03: first wrapping with any other width and columns, then with the target ones, gives the
    same lines as wrapping the source with the target ones *)
-Theorem wrap_cross_width esc esc' text w1 a0 a1 w2 c0 c1 md : 0 < w2 ->
+Theorem wrap_cross_width esc esc' text w1 a0 a1 w2 c0 c1 md :
   wrap_paragraph_lines esc split_ws
     (join [nl] (wrap_paragraph_lines esc' split_ws text w1 a0 a1 true true false)) w2 c0 c1 true true md
   = wrap_paragraph_lines esc split_ws text w2 c0 c1 true true md.
-Proof. intros Hw. apply wrap_canonical_words; [exact Hw|]. apply wrap_words_reread. Qed.
+Proof. apply wrap_canonical_words. apply wrap_words_reread. Qed.
 
 (* C02: wrapping is idempotent *)
-Corollary wrap_idempotent esc text width c0 c1 : 0 < width ->
+Corollary wrap_idempotent esc text width c0 c1 :
   wrap_paragraph_lines esc split_ws
     (join [nl] (wrap_paragraph_lines esc split_ws text width c0 c1 true true false)) width c0 c1 true true false
   = wrap_paragraph_lines esc split_ws text width c0 c1 true true false.
-Proof. intros Hw. now apply wrap_cross_width. Qed.
+Proof. apply wrap_cross_width. Qed.
